@@ -93,6 +93,9 @@ def time_courses(draw, mode=None, tier="quick"):
                 cls = draw(st.sampled_from(classes)) if mixed else cls0
                 fr.append(_droplet(draw, cls, dim, pos, r, s))
                 fid.append(None)
+            if fr and draw(st.integers(0, 3)) == 0:  # an exact duplicate of a droplet of this frame (bit-identical data)
+                fr.insert(draw(st.integers(0, len(fr))), dict(fr[draw(st.integers(0, len(fr) - 1))]))
+                fid.append(None)
         elif mode == "lattice":
             sub = draw(st.lists(st.sampled_from(sites), min_size=0, max_size=min(max_n, len(sites)), unique=True))
             for site in sub:
